@@ -86,6 +86,10 @@ type Engine struct {
 	sites   map[string]*SiteResult
 	order   []string
 	debug   bool
+	bindingParams bool
+	// PureDyn: function-typed variables whose call results are remembered like those of pure functions (a client
+	// that needs to know which way `if visit(n)` went within one iteration)
+	PureDyn map[types.Object]bool
 }
 
 type target struct {
@@ -330,7 +334,8 @@ func (e *Engine) stmt1(s ast.Stmt, in []*State) []*State {
 		return e.assign(s.Lhs, s.Rhs, s.Tok, s, in)
 	case *ast.IncDecStmt:
 		in = e.lhsSub(s.X, in)
-		return e.hookEach(in, func(st *State) *State { return e.killTarget(st, s.X) })
+		in = e.hookEach(in, func(st *State) *State { return e.killTarget(st, s.X) })
+		return e.hookEach(in, func(st *State) *State { return e.Client.PostAssign(e, st, []ast.Expr{s.X}, nil, s) })
 	case *ast.DeclStmt:
 		gd, ok := s.Decl.(*ast.GenDecl)
 		if !ok || gd.Tok != token.VAR {
@@ -897,11 +902,19 @@ func (e *Engine) call(x *ast.CallExpr, in []*State) []*State {
 		in = e.expr(a, in)
 	}
 	callee := Callee(info, x)
+	var closure *ast.FuncDecl
+	if callee == nil && builtin == "" {
+		if cf, cd := e.closureTarget(x); cd != nil {
+			callee, closure = cf, cd
+		}
+	}
 	in = e.hookEach(in, func(st *State) *State { return e.Client.PreCall(e, st, x, callee) })
 	if builtin == "panic" {
 		return nil
 	}
-	if decl := e.inlineTarget(x, callee); decl != nil {
+	if closure != nil {
+		in = e.inlineCall(x, callee, closure, in)
+	} else if decl := e.inlineTarget(x, callee); decl != nil {
 		in = e.inlineCall(x, callee, decl, in)
 	} else {
 		in = e.hookEach(in, func(st *State) *State { return e.callEffects(st, x, callee, builtin) })
@@ -1093,6 +1106,19 @@ func (e *Engine) update(st *State, k keyInfo, mod func(f *Fact)) *State {
 		}
 	}
 	mod(f)
+	// (len(x)-c) is at least len(x)'s lower bound minus c
+	if strings.HasPrefix(k.Key, "(len(") && strings.HasSuffix(k.Key, ")") {
+		if i := strings.LastIndex(k.Key, ")-"); i > 0 {
+			if c, ok := parseInt(k.Key[i+2 : len(k.Key)-1]); ok {
+				if lf := st.facts[k.Key[1:i+1]]; lf != nil && lf.Lo != nil {
+					lo := *lf.Lo - c
+					if f.Lo == nil || *f.Lo < lo {
+						f.Lo = &lo
+					}
+				}
+			}
+		}
+	}
 	if !normalizeFact(f) {
 		return nil
 	}
@@ -1333,7 +1359,7 @@ func (e *Engine) setAlias(st *State, l ast.Expr, target *keyInfo) *State {
 	}
 	// a variable must not be named after a shorter-lived one (declared later, in an inner scope): when that one goes
 	// out of scope everything known about both would be forgotten. The facts are copied instead.
-	if !e.isResultIdent(id) {
+	if !e.isResultIdent(id) && !e.bindingParams {
 		cur := e.CurFunc()
 		inCur := func(p token.Pos) bool { return cur != nil && p >= cur.Pos() && p < cur.End() }
 		for _, o := range target.Objs {
@@ -1527,6 +1553,26 @@ func (e *Engine) assignCore(st *State, lhs, rhs []ast.Expr, tok token.Token, stm
 	}
 	if simple && len(lhs) == len(rhs) {
 		for i, l := range lhs {
+			// a value of a concrete type stored into an interface variable: the variable is a non-nil interface
+			// whatever the pointer inside is, so it must not become another name of the pointer's path (a nil test
+			// of the interface says nothing about the pointer); where it came from is kept as a tag
+			if bt := e.boxedType(l, rhs[i]); bt != nil {
+				k := e.canon(st, l)
+				if k.OK {
+					tags := []string{}
+					if aliases[i] != nil {
+						tags = append(tags, "boxed:"+aliases[i].Key)
+					}
+					if n := e.update(st, k, func(f *Fact) {
+						f.Nil = 2
+						f.TyIn = []string{TypeStr(bt)}
+						f.Tags = tags
+					}); n != nil {
+						st = n
+					}
+				}
+				continue
+			}
 			if aliases[i] != nil {
 				st = e.setAlias(st, l, aliases[i])
 			}
@@ -1561,6 +1607,61 @@ func (e *Engine) assignCore(st *State, lhs, rhs []ast.Expr, tok token.Token, stm
 		st = n
 	}
 	return st
+}
+
+// SetLenAtLeast records len(x) >= n.
+func (e *Engine) SetLenAtLeast(st *State, x ast.Expr, n int64) *State {
+	k := e.canon(st, x)
+	if !k.OK {
+		return st
+	}
+	lk := k
+	lk.Key = "len(" + k.Key + ")"
+	if out := e.update(st, lk, func(f *Fact) {
+		if f.Lo == nil || *f.Lo < n {
+			f.Lo = &n
+		}
+	}); out != nil {
+		return out
+	}
+	return st
+}
+
+// SetLenOfVar records len(v) == n for a variable.
+func (e *Engine) SetLenOfVar(st *State, v types.Object, n int64) *State {
+	k := keyInfo{Key: "len(" + e.objKey(v) + ")", Objs: []types.Object{v}, OK: true}
+	if out := e.update(st, k, func(f *Fact) {
+		lo, hi := n, n
+		f.Lo, f.Hi = &lo, &hi
+	}); out != nil {
+		return out
+	}
+	return st
+}
+
+// boxedType: the assignment l = r converts a value of a concrete (non-interface) type into an interface variable;
+// returns that concrete type.
+func (e *Engine) boxedType(l, r ast.Expr) types.Type {
+	if _, isID := ast.Unparen(l).(*ast.Ident); !isID {
+		return nil
+	}
+	lt, rt := e.Info.TypeOf(l), e.Info.TypeOf(r)
+	if lt == nil || rt == nil || isNilIdent(e.Info, r) {
+		return nil
+	}
+	if _, ok := lt.Underlying().(*types.Interface); !ok {
+		return nil
+	}
+	if _, ok := rt.Underlying().(*types.Interface); ok {
+		return nil
+	}
+	if b, ok := rt.(*types.Basic); ok && b.Kind() == types.UntypedNil {
+		return nil
+	}
+	if _, isTP := rt.(*types.TypeParam); isTP {
+		return nil
+	}
+	return rt
 }
 
 // lenLowerBound: for `x = append(y, a, b)` returns len(y).Lo + #args; for a slice/map literal its length.
